@@ -14,6 +14,7 @@ import Driver.Http
 import Driver.Auth
 import Driver.Route
 import Driver.Backoff
+import Driver.Sys
 /-!
 # Model driver: one op per input line → one canonical output line.
 `driver <engine> < ops`.  Lines starting with `#` and blank lines are skipped; `case <name>`
@@ -36,6 +37,7 @@ def engines : List (String × Engine) :=
    ("http", HttpEngine.engine),
    ("gossiph", GossiphEngine.engine),
    ("backoff", BackoffEngine.engine),
+   ("sys", SysEngine.engine),
    ("gossip", GossipEngine.engine)]
 
 partial def loop (h : IO.FS.Stream) (out : IO.FS.Stream) (e : Engine) (s : e.σ) : IO Unit := do
